@@ -198,9 +198,9 @@ def rand_opts(rng, profile, level):
         for k in rng.sample([0, 1, 2, 3], rng.randrange(1, 3)):
             o["c%d" % k] = rng.choice([0, 1, 5, 12, 1000, 123456])
     if rng.random() < p.get("p_time", 0.0):
-        which = rng.randrange(3)
+        which = rng.choice(p.get("time_kinds", [0, 1, 2]))
         if which == 0:
-            o["xt"] = rng.choice([0, 100, 1000, 5000])
+            o["xt"] = rng.choice([0, 1, 40, 100, 1000, 5000])
         elif which == 1:
             o["mt"] = rng.choice([0, 100, 2000])
         else:
@@ -272,6 +272,8 @@ def gen_spec(rng, profile=None):
     profile = profile or {}
     sp = Spec()
     freq = rng.choice([10 ** 9, 10 ** 9, 10 ** 12, 2 * 10 ** 9, 10 ** 6])
+    if rng.random() < profile.get("p_coarse_counter", 0.0):
+        freq = rng.choice([10 ** 6, 24_000_000, 1000, 32768])      # ticks of 1 us, 41.67 ns, 1 ms, 30.5 us
     sp.clock = (freq, rng.choice([1, 1, 2]), 1, rng.choice([1000, 1, 10 ** 6]))
     maxdepth = profile.get("maxdepth", 5)
     target = rng.randrange(profile.get("min_benches", 2), profile.get("max_benches", 16) + 1)
@@ -337,7 +339,7 @@ def gen_spec(rng, profile=None):
                 b.types = rng.sample(range(len(TYPE_PALETTE)), rng.randrange(1, 4))
             if which in (1, 2):
                 b.constkind = rng.choice(["i64", "i64", "u8", "char", "bool", "f64", "str"])
-                b.consts = {"i64": lambda: rng.choice([["8", "16", "4", "32"], ["-1", "10", "9"], ["100", "20", "3"]]),
+                b.consts = {"i64": lambda: rng.choice([["8", "16", "4", "32"], ["-1", "10", "9"], ["100", "20", "3"], ["-3", "-20", "5", "-100", "0"], ["-9", "-10", "-1"]]),
                             "u8": lambda: rng.choice([["1", "10", "2"], ["255", "0"]]),
                             "char": lambda: rng.choice([["b", "a"], ["z", "é", "A"]]),
                             "bool": lambda: rng.choice([["true", "false"], ["false"]]),
